@@ -46,12 +46,13 @@ def _num(x):
     return int(f) if f == int(f) else f
 
 
-def model_check(module, insts, consts, invariants, edges, workers=4, timeout=900, heap="3g", norm=None, constraint=None):
+def model_check(module, insts, consts, invariants, edges, workers=4, timeout=900, heap="3g", norm=None, constraint=None,
+                spec="Spec", properties=()):
     """one TLC run over a batch of instances (the initial states): invariants (+ the labelled transition dump when edges).
     -> ({t: [edges]} | None, TlcResult)"""
     f = scratch() / ("inst_%d_%d.ndjson" % (os.getpid(), random.getrandbits(40)))
     f.write_text("".join(json.dumps(i) + "\n" for i in insts))
-    cfg = "SPECIFICATION Spec\nVIEW View\n" + "".join("INVARIANT %s\n" % i for i in invariants)
+    cfg = "SPECIFICATION %s\nVIEW View\n" % spec + "".join("INVARIANT %s\n" % i for i in invariants) + "".join("PROPERTY %s\n" % i for i in properties)
     if constraint:
         cfg += "CONSTRAINT %s\n" % constraint
     if edges:
